@@ -788,13 +788,18 @@ def tokenize(content: str, lenient: bool = False) -> tuple[list[Token], list[Any
         if fence_span_idx < len(fence_spans) and pos == fence_spans[fence_span_idx][0]:
             span_start, span_end, marker, tag = fence_spans[fence_span_idx]
 
-            # Emit FENCE_OPEN token
+            # Emit FENCE_OPEN token. Its column is the position of the backticks, so an
+            # indented fence (which is not preceded by an INDENT token) still carries the
+            # indentation of its line for the parser's block structure tracking.
+            fence_indent = 0
+            while span_start + fence_indent < len(content) and content[span_start + fence_indent] == " ":
+                fence_indent += 1
             tokens.append(
                 Token(
                     TokenType.FENCE_OPEN,
                     {"fence_marker": marker, "info_tag": tag},
                     line,
-                    column,
+                    column + fence_indent,
                 )
             )
 
